@@ -528,6 +528,9 @@ def check_registry(ctx, prefix=None):
             "no_longer_checks": "registry correspondence (suite 'names')"}, nofail=True)
 
 
+FLOCQ_AXIOMS = ["Classical_Prop.classic", "FunctionalExtensionality.functional_extensionality_dep",
+                "ClassicalDedekindReals.sig_forall_dec", "ClassicalDedekindReals.sig_not_dec"]
+
 TRUSTED_COMMON = [
     "Coq 8.16.1 kernel (coqc full .vo build; vm_compute used only in Examples / finite sweeps); no native_compute",
     "the model is hand-written Gallina; its tie to /repo is the correspondence run of this check (differential, bounded by the generators)",
@@ -553,9 +556,14 @@ def prove(ctx):
         ax.update(assumptions(f, t, os.path.join(ctx.workdir, f.replace("/", "_"))))
         thms += t; exs += e
     allow = set(getattr(ctx.mod, "AXIOMS_OK", []))
+    by_file = getattr(ctx.mod, "AXIOMS_OK_BY_FILE", {})     # e.g. {"Props/C11f": [the classical axioms Flocq imports]}
+    owner = {}
+    for f in files:
+        for t in theorems_of(f)[0]:
+            owner[t] = f
     discharged = 0
     for t in thms:
-        extra = [a for a in ax[t] if a not in allow]
+        extra = [a for a in ax[t] if a not in allow and a not in by_file.get(owner.get(t), [])]
         if extra:
             die("theorem %s depends on axioms outside the allow-list: %s" % (t, extra))
         discharged += 1
